@@ -80,6 +80,9 @@ where
         | _, _ => mt'
       ⟨mres, d.res, mt', it'⟩ :: go ds mt'' it'
 
+def runHistoryFrom (docs : List DocCase) (init : Option Elem) : List StepObs :=
+  runHistory.go docs init init
+
 def sameKind (a : Except PErr Elem) (b : Except Name Elem) : Bool :=
   match a, b with
   | .ok _, .ok _ => true
